@@ -269,4 +269,7 @@ _ins("C14", "text", "Tied to the code by",
 _ins("C18", "text", "Tied to the code by",
      "The fixed-layout payloads (MPHD, MAIN entries, MODF entries) are layouts of the generic record codec: values that fit are read back "
      "exactly and the record has the chunk's record size (wdt_payload_records_roundtrip). ")
+_ins("C13", "text", "Tied to the code by",
+     "SKIN FILES: the five data sections named by the recorded (count, offset) pairs follow the header without gap or overlap up to the "
+     "end of the file, an empty section being recorded as offset 0 (skin_sections_tile, both layouts and the BfA header). ")
 
